@@ -581,6 +581,13 @@ def check(pid, tier, replay=None):
     # 1. translate + 2. prove
     tproblems = coq_prepare()
     pr = prove(pid, getattr(P, 'ALLOWED_AXIOMS', ()))
+    # a translator problem counts for this property only if the generated file it belongs to is in the property's import closure
+    def relevant(p):
+        m = re.match(r'(C\d+): ', p)
+        if m:
+            return m.group(1) == pid or ('Gen/Consts_%s.v' % m.group(1)) in pr['files']
+        return 'Gen/Consts.v' in pr['files']
+    tproblems = [p for p in tproblems if relevant(p)]
     obligations_broken = list(tproblems) + pr['errors']
     log('%s proof: %d/%d obligations, ok=%s' % (pid, pr['discharged'], pr['obligations'], pr['ok']))
 
@@ -618,7 +625,9 @@ def check(pid, tier, replay=None):
         io, mo = impl_obs[i], model_obs[i]
         crashed = bool(io) and io[0] == 'CRASH'
         if crashed:
-            failures.append((i, ['crash:' + re.sub(r'\s+', '_', io[1])]))
+            cs = crash_signature(P, c, io[1])
+            if cs:
+                failures.append((i, [cs]))
         else:
             sigs = P.oracle(c, io)
             if sigs:
@@ -711,6 +720,12 @@ def check(pid, tier, replay=None):
     return status
 
 
+def crash_signature(P, case, summary):
+    if hasattr(P, 'crash_sig'):
+        return P.crash_sig(case, summary)
+    return 'crash:' + re.sub(r'\s+', '_', summary)
+
+
 def search(P, exes, known, seed, cases, unexplained):
     """Look for a concrete input on which the property itself fails on the implementation."""
     budget = getattr(P, 'SEARCH_ROUNDS', 3)
@@ -723,8 +738,8 @@ def search(P, exes, known, seed, cases, unexplained):
         obs = run_cases(P, exes, extra)
         for c, o in zip(extra, obs):
             if o and o[0] == 'CRASH':
-                s = 'crash:' + re.sub(r'\s+', '_', o[1])
-                if s not in known:
+                s = crash_signature(P, c, o[1])
+                if s and s not in known:
                     return c, s
                 continue
             for s in P.oracle(c, o):
@@ -737,7 +752,7 @@ def shrink(P, exes, case, sig):
     def fails(c):
         o = run_cases(P, exes, [c])[0]
         if o and o[0] == 'CRASH':
-            return ('crash:' + re.sub(r'\s+', '_', o[1])) == sig
+            return crash_signature(P, c, o[1]) == sig
         return sig in P.oracle(c, o)
     try:
         return P.shrink(case, fails)
@@ -812,7 +827,7 @@ def impl_only(pid, tier):
     obs = run_cases(P, exes, cases)
     by = {}
     for c, o in zip(cases, obs):
-        sigs = ['crash:' + re.sub(r'\s+', '_', o[1])] if (o and o[0] == 'CRASH') else P.oracle(c, o)
+        sigs = [x for x in [crash_signature(P, c, o[1])] if x] if (o and o[0] == 'CRASH') else P.oracle(c, o)
         for sg in sigs:
             by.setdefault(sg, []).append(c)
     print('%d cases in %.1fs; %d distinct failure signatures' % (len(cases), time.time() - t0, len(by)))
